@@ -652,12 +652,16 @@ class Array:
         [  0.   1.   3.   4.   6.   7.   9.  10.]
 
         """
-        with self._open_array(accessmode=accessmode) as (ar, _):
+        with self._open_array(accessmode=accessmode):
             for framestart, frameend in \
                     self.iterindices(chunklen, stepsize=stepsize,
                                      startindex=startindex, endindex=endindex,
                                      include_remainder=include_remainder):
-                yield np.array(ar[framestart:frameend], copy=True)
+                # the memory map is looked up at every step: it is renewed
+                # when the length of the array changes during iteration,
+                # and reading the old one beyond the end of a truncated
+                # file kills the interpreter (bus error)
+                yield np.array(self._memmap[framestart:frameend], copy=True)
 
     def copy(self, path, dtype=None, chunklen=None, accessmode='r',
              overwrite=False):
